@@ -444,8 +444,7 @@ Lemma terminated_quiet_lemma : forall client o ops, first_op client o ->
   c_state (snd (run (conn_init client) (o :: ops))) = TERMINATED ->
   let c := snd (run (conn_init client) (o :: ops)) in
   (forall now idle0 ps, receive now idle0 ps c = c) /\
-  (forall now pto3 p nev, send now pto3 p nev c = Ok (SNone, c) \/ send now pto3 p nev c = Err X_INDEX) /\
-  (forall now pto3 p nev, c_has_path c = true -> send now pto3 p nev c = Ok (SNone, c)) /\
+  (forall now pto3 p nev, send now pto3 p nev c = Ok (SNone, c)) /\
   (forall acks loss pacing, get_timer acks loss pacing c = (Ok None, c)) /\
   do_close EV_LOCAL c = c /\
   (forall now idle, connect now idle c = Err X_ASSERT) /\
@@ -456,7 +455,6 @@ Proof.
   repeat split; intros.
   - unfold receive. rewrite T. reflexivity.
   - unfold send. destruct (negb (c_has_path c)); auto. rewrite T. simpl. auto.
-  - unfold send. rewrite H. simpl. rewrite T. reflexivity.
   - unfold get_timer. rewrite T. simpl. rewrite CA. reflexivity.
   - unfold do_close. rewrite T. simpl. rewrite andb_false_r. reflexivity.
   - unfold connect. destruct (c_client c) eqn:CL; simpl; auto.
@@ -493,7 +491,7 @@ Lemma send_enters_closing : forall now pto3 p nev c s c',
   c_state c' = CLOSING /\ c_close_at c' = Some (now + pto3) /\ c_close_pending c = true /\ s <> SData.
 Proof.
   intros now pto3 p nev c s c' S E E'. unfold send in S.
-  destruct (negb (c_has_path c)); [discriminate|]. rewrite E in S.
+  destruct (negb (c_has_path c)); [inversion S; subst; congruence|]. rewrite E in S.
   destruct (c_close_pending c) eqn:P; inversion S; subst.
   - dconn c; unfold close_begin; simpl. repeat split; auto. destruct p; discriminate.
   - dconn c; simpl in *. congruence.
